@@ -3,15 +3,21 @@ package c09
 
 import (
 	"bytes"
+	"context"
 	"crypto/x509"
+	"encoding/hex"
+	"flag"
 	"fmt"
 	"os"
 	"strconv"
 	"strings"
 	"sync"
+	"sync/atomic"
 	"testing"
 	"time"
 
+	"github.com/google/gce-tcb-verifier/extract/extractsev"
+	"github.com/google/gce-tcb-verifier/gcetcbendorsement"
 	epb "github.com/google/gce-tcb-verifier/proto/endorsement"
 	"github.com/google/gce-tcb-verifier/sev"
 	"github.com/google/gce-tcb-verifier/verify"
@@ -28,32 +34,43 @@ import (
 
 func TestMain(m *testing.M) { ev.Main(m) }
 
+// spread maps a drawn number to an index so that the small numbers rapid favours do not all land on
+// the first entries of a list.
+func spread(x uint64, n int) int { return int(((x + 1) * 0x9E3779B97F4A7C15 >> 33) % uint64(n)) }
+
+func checks(n int) { flag.Set("rapid.checks", strconv.Itoa(n)) }
+
 var (
 	t0  = time.Date(2025, time.January, 1, 0, 0, 0, 0, time.UTC)
 	day = 24 * time.Hour
 )
 
-// The measurements a call may present, by class.
+// The measurements a call may present.
 var (
-	measEndorsed4 = bytes.Repeat([]byte{0x44}, 48) // endorsed for 4 VMSAs
-	measEndorsed8 = bytes.Repeat([]byte{0x88}, 48) // endorsed for 8 VMSAs (another count)
+	measEndorsed4 = bytes.Repeat([]byte{0x44}, 48) // firmware A, endorsed for 4 VMSAs
+	measEndorsed8 = bytes.Repeat([]byte{0x88}, 48) // firmware A, endorsed for 8 VMSAs (another count)
+	measB4        = bytes.Repeat([]byte{0xb4}, 48) // firmware B (its own endorsement), 4 VMSAs
+	measF4        = bytes.Repeat([]byte{0xf4}, 48) // "firmware" whose bucket object carries a forged signature
 	measBad       = bytes.Repeat([]byte{0xbd}, 48) // not endorsed
 	measBad2      = bytes.Repeat([]byte{0xbe}, 48) // not endorsed
 )
 
-var measClasses = []string{"endorsed", "other-count", "unendorsed", "unendorsed2"}
-
-func measOf(class string) []byte {
-	switch class {
-	case "endorsed":
-		return measEndorsed4
-	case "other-count":
-		return measEndorsed8
-	case "unendorsed":
-		return measBad
-	}
-	return measBad2
-}
+// The kinds of attestation a call may present. Every kind names a measurement and the endorsement
+// that accompanies the attestation (as blob argument, certificate-table entry or bucket object,
+// depending on the variant):
+//
+//	endorsed     firmware A / 4 VMSAs, A's genuine endorsement
+//	other-count  firmware A / 8 VMSAs, A's genuine endorsement
+//	unendorsed   a measurement nobody endorsed, accompanied by A's genuine endorsement (no bucket object)
+//	unendorsed2  another such measurement
+//	fwB          firmware B / 4 VMSAs, B's genuine endorsement
+//	forged       an endorsement whose signature is corrupted (with A's measurement where the
+//	             endorsement travels with the call; with its own measurement in the bucket)
+var (
+	oldKinds = []string{"endorsed", "other-count", "unendorsed"}
+	allKinds = []string{"endorsed", "other-count", "unendorsed", "unendorsed2", "fwB", "forged"}
+	newKinds = []string{"endorsed", "fwB", "forged"}
+)
 
 // gate is the schedule control point: the trusted-root constraint callback runs inside chain
 // verification, i.e. after the validator has noted the call's measurement and before it compares.
@@ -61,6 +78,12 @@ type gate struct {
 	mu      sync.Mutex
 	enabled bool
 	parked  chan chan struct{} // a parked caller sends its release channel
+}
+
+func (g *gate) set(en bool) {
+	g.mu.Lock()
+	g.enabled = en
+	g.mu.Unlock()
 }
 
 func (g *gate) constraint(chain []*x509.Certificate) error {
@@ -76,78 +99,313 @@ func (g *gate) constraint(chain []*x509.Certificate) error {
 	return nil
 }
 
+type bucketGetter struct{ objects map[string][]byte }
+
+func (g *bucketGetter) Get(url string) ([]byte, error) {
+	if b, ok := g.objects[url]; ok {
+		return b, nil
+	}
+	return nil, fmt.Errorf("404 %s", url)
+}
+
 type fixture struct {
 	root     *x509.Certificate
 	signCert *x509.Certificate
 	gate     *gate
 	pool     *x509.CertPool
-	blob     []byte
-	e        *epb.VMLaunchEndorsement
+	eA       *epb.VMLaunchEndorsement
+	blobA    []byte
+	blobB    []byte
+	forgedA  []byte
+	getter   *bucketGetter
+	// pristine[variant|kind] = the verdict (accept?) of that call alone on a fresh validator,
+	// computed before any validator was shared.
+	pristine map[string]bool
+	// serialised counts, per variant, how often a second call did not reach the park point while
+	// another was parked (an implementation that serialises calls); after two observations the
+	// interleaved schedules are skipped for that variant.
+	serialised map[string]int
+	// recheck: judge recomputes the call's result alone on a fresh object after the shared run (and
+	// compares it with the pristine one) rather than using the pristine one only.
+	recheck bool
+}
+
+// serialisedSeen is shared by the fixtures of all tests of the process (tests run one after another).
+var serialisedSeen = map[string]int{}
+
+func bucketURL(meas []byte) string {
+	return verify.GCETcbURL(extractsev.GCETcbObjectName(sev.GCEUefiFamilyID, meas))
+}
+
+func corruptSignature(b []byte) []byte {
+	e := &epb.VMLaunchEndorsement{}
+	if err := proto.Unmarshal(b, e); err != nil {
+		panic("harness: " + err.Error())
+	}
+	e.Signature = append([]byte(nil), e.Signature...)
+	e.Signature[5] ^= 0x40
+	out, _ := proto.Marshal(e)
+	return out
+}
+
+func golden(measurements map[uint32][]byte) *epb.VMGoldenMeasurement {
+	return &epb.VMGoldenMeasurement{Timestamp: timestamppb.New(t0), ClSpec: 1, Digest: make([]byte, 48),
+		SevSnp: &epb.VMSevSnp{Measurements: measurements, Policy: 0x70000, FamilyId: make([]byte, 16), ImageId: make([]byte, 16)}}
 }
 
 func newFixture() *fixture {
-	f := &fixture{gate: &gate{parked: make(chan chan struct{}, 16)}}
+	f := &fixture{gate: &gate{parked: make(chan chan struct{}, 64)}, serialised: serialisedSeen, recheck: true}
 	f.root = pki.MakeCert(pki.CertSpec{CN: "verif-root", Serial: 1, NotBefore: t0.Add(-day), NotAfter: t0.Add(1000 * day), IsCA: true, Key: pki.Key(0)})
 	f.signCert = pki.MakeCert(pki.CertSpec{CN: "verif-signer", Serial: 2, NotBefore: t0.Add(-day), NotAfter: t0.Add(500 * day), Key: pki.Key(1), Parent: f.root, ParentKey: pki.Key(0)})
 	f.pool = x509.NewCertPool()
 	f.pool.AddCertWithConstraint(f.root, f.gate.constraint)
-	g := &epb.VMGoldenMeasurement{Timestamp: timestamppb.New(t0), ClSpec: 1, Digest: make([]byte, 48),
-		SevSnp: &epb.VMSevSnp{Measurements: map[uint32][]byte{4: measEndorsed4, 8: measEndorsed8}, Policy: 0x70000, FamilyId: make([]byte, 16), ImageId: make([]byte, 16)}}
-	f.e = pki.Endorse(g, f.signCert.Raw, pki.Key(1))
-	f.blob, _ = proto.Marshal(f.e)
+	f.eA = pki.Endorse(golden(map[uint32][]byte{4: measEndorsed4, 8: measEndorsed8}), f.signCert.Raw, pki.Key(1))
+	f.blobA, _ = proto.Marshal(f.eA)
+	f.blobB, _ = proto.Marshal(pki.Endorse(golden(map[uint32][]byte{4: measB4}), f.signCert.Raw, pki.Key(1)))
+	f.forgedA = corruptSignature(f.blobA)
+	blobF, _ := proto.Marshal(pki.Endorse(golden(map[uint32][]byte{4: measF4}), f.signCert.Raw, pki.Key(1)))
+	f.getter = &bucketGetter{objects: map[string][]byte{
+		bucketURL(measEndorsed4): f.blobA,
+		bucketURL(measEndorsed8): f.blobA,
+		bucketURL(measB4):        f.blobB,
+		bucketURL(measF4):        corruptSignature(blobF),
+	}}
 	return f
+}
+
+// input returns the measurement of an attestation of the given kind and the endorsement that
+// accompanies it. With bucket transport nothing accompanies the attestation (the validator fetches
+// the object named after the measurement).
+func (f *fixture) input(kind string, bucket bool) (meas, blob []byte) {
+	switch kind {
+	case "endorsed":
+		meas, blob = measEndorsed4, f.blobA
+	case "other-count":
+		meas, blob = measEndorsed8, f.blobA
+	case "unendorsed":
+		meas, blob = measBad, f.blobA
+	case "unendorsed2":
+		meas, blob = measBad2, f.blobA
+	case "fwB":
+		meas, blob = measB4, f.blobB
+	case "forged":
+		if bucket {
+			meas = measF4
+		} else {
+			meas, blob = measEndorsed4, f.forgedA
+		}
+	default:
+		panic("harness: kind " + kind)
+	}
+	if bucket {
+		blob = nil
+	}
+	return meas, blob
 }
 
 // variant says how the validator is built and invoked.
 type variant struct {
 	name  string
 	vmsas uint32
-	// make returns a function validating one measurement through the shared object.
-	make func(f *fixture, vmsas uint32) (call func(meas []byte) error, shared *verify.Options)
+	// fixedEndorsement: the caller configured Options.Endorsement (firmware A's), which the validator
+	// documents to prefer over whatever accompanies the attestation.
+	fixedEndorsement bool
+	// make returns a function validating one attestation of a kind through the shared object, and a
+	// function rendering the caller-visible state of that shared object.
+	make func(f *fixture, v *variant) (call func(kind string) error, snap func() string)
 }
 
-var variants = []variant{
-	{"closure/blob", 0, mkClosure(false)},
-	{"closure/blob/vmsas=4", 4, mkClosure(false)},
-	{"closure/opts.Endorsement", 0, mkClosure(true)},
-	{"closure/opts.Endorsement/vmsas=4", 4, mkClosure(true)},
-	{"go-sev-guest/shared-validate-options", 0, mkSevGuest},
-	{"go-sev-guest/shared-validate-options/vmsas=4", 4, mkSevGuest},
+var variants = []*variant{
+	{name: "closure/blob", make: mkClosure("blob", false)},
+	{name: "closure/blob/vmsas=4", vmsas: 4, make: mkClosure("blob", false)},
+	{name: "closure/opts.Endorsement", fixedEndorsement: true, make: mkClosure("opts", false)},
+	{name: "closure/opts.Endorsement/vmsas=4", vmsas: 4, fixedEndorsement: true, make: mkClosure("opts", false)},
+	{name: "go-sev-guest/shared-validate-options", make: mkSevGuest(false)},
+	{name: "go-sev-guest/shared-validate-options/vmsas=4", vmsas: 4, make: mkSevGuest(false)},
+	// round 4
+	{name: "closure/getter", make: mkClosure("getter", false)},
+	{name: "closure/getter/vmsas=4", vmsas: 4, make: mkClosure("getter", false)},
+	{name: "closure/blob/snp=nil", make: mkClosure("blob", true)},
+	{name: "closure/getter/snp=nil", make: mkClosure("getter", true)},
+	{name: "go-sev-guest/getter", make: mkSevGuest(true)},
+	{name: "SevValidate/table", make: mkSevValidate(svCfg{})},
+	{name: "SevValidate/table/vmsas=4", vmsas: 4, make: mkSevValidate(svCfg{})},
+	{name: "SevValidate/bucket", make: mkSevValidate(svCfg{bucket: true})},
+	{name: "SevValidate/bucket/vmsas=4", vmsas: 4, make: mkSevValidate(svCfg{bucket: true})},
+	{name: "SevValidate/opts.Endorsement", fixedEndorsement: true, make: mkSevValidate(svCfg{fixed: true})},
+	{name: "SevValidate/table/base-policy/vmsas=4", vmsas: 4, make: mkSevValidate(svCfg{base: true})},
+	{name: "SevValidate/bucket/base-policy/overwrite/vmsas=4", vmsas: 4, make: mkSevValidate(svCfg{base: true, bucket: true, overwrite: true})},
 }
 
-func mkClosure(viaOpts bool) func(f *fixture, vmsas uint32) (func([]byte) error, *verify.Options) {
-	return func(f *fixture, vmsas uint32) (func([]byte) error, *verify.Options) {
-		opts := &verify.Options{RootsOfTrust: f.pool, Now: t0, SNP: &verify.SNPOptions{ExpectedLaunchVMSAs: vmsas}}
-		var blob []byte
-		if viaOpts {
-			opts.Endorsement = f.e
-		} else {
-			blob = f.blob
+const firstNewVariant = 6
+
+// mustReject: the statement's "a report whose measurement is not endorsed is rejected whatever other
+// validations are in flight", per kind: the measurement is in no endorsement; or it is endorsed for
+// another VMSA count than the configured one; or the endorsement in use is another firmware's; or
+// the endorsement in use carries a corrupted signature.
+func mustReject(v *variant, kind string) bool {
+	switch kind {
+	case "unendorsed", "unendorsed2":
+		return true
+	case "other-count":
+		return v.vmsas == 4
+	case "fwB":
+		return v.fixedEndorsement
+	case "forged":
+		return !v.fixedEndorsement
+	}
+	return false
+}
+
+func snapVerifyOptions(o *verify.Options) func() string {
+	return func() string {
+		snp := "nil"
+		if o.SNP != nil {
+			snp = fmt.Sprintf("{meas=%x vmsas=%d}", o.SNP.Measurement, o.SNP.ExpectedLaunchVMSAs)
+		}
+		return fmt.Sprintf("snp=%s digest=%x now=%v endorsement=%p getter=%p roots=%p", snp, o.ExpectedUefiSha384, o.Now, o.Endorsement, o.Getter, o.RootsOfTrust)
+	}
+}
+
+// mkClosure: one closure from verify.SNPValidateFunc. source "blob": the endorsement is the blob
+// argument of each call; "opts": Options.Endorsement (the blob argument is still passed);
+// "getter": neither, the closure fetches the object named after the measurement.
+func mkClosure(source string, nilSNP bool) func(f *fixture, v *variant) (func(string) error, func() string) {
+	return func(f *fixture, v *variant) (func(string) error, func() string) {
+		opts := &verify.Options{RootsOfTrust: f.pool, Now: t0}
+		if !nilSNP {
+			opts.SNP = &verify.SNPOptions{ExpectedLaunchVMSAs: v.vmsas}
+		}
+		switch source {
+		case "opts":
+			opts.Endorsement = f.eA
+		case "getter":
+			opts.Getter = f.getter
 		}
 		fn := verify.SNPValidateFunc(opts)
-		return func(meas []byte) error { return fn(attest.SnpAttestation(meas, nil), blob) }, opts
+		return func(kind string) error {
+			meas, blob := f.input(kind, source == "getter")
+			return fn(attest.SnpAttestation(meas, nil), blob)
+		}, snapVerifyOptions(opts)
 	}
 }
 
-// mkSevGuest builds one go-sev-guest validate.Options the way SevValidate does and reuses it.
-func mkSevGuest(f *fixture, vmsas uint32) (func([]byte) error, *verify.Options) {
-	opts := &verify.Options{RootsOfTrust: f.pool, Now: t0, SNP: &verify.SNPOptions{ExpectedLaunchVMSAs: vmsas}}
-	vopts, err := validate.PolicyToOptions(&cpb.Policy{Policy: 0x70000, MinimumVersion: "0.0"})
-	if err != nil {
-		panic("harness: " + err.Error())
+// mkSevGuest builds one go-sev-guest validate.Options the way SevValidate does and reuses it. The
+// endorsement travels in each attestation's certificate table, or (getter) is absent there so that
+// go-sev-guest hands the closure a nil blob and the closure fetches.
+func mkSevGuest(getter bool) func(f *fixture, v *variant) (func(string) error, func() string) {
+	return func(f *fixture, v *variant) (func(string) error, func() string) {
+		opts := &verify.Options{RootsOfTrust: f.pool, Now: t0, SNP: &verify.SNPOptions{ExpectedLaunchVMSAs: v.vmsas}, Getter: f.getter}
+		vopts, err := validate.PolicyToOptions(&cpb.Policy{Policy: 0x70000, MinimumVersion: "0.0"})
+		if err != nil {
+			panic("harness: " + err.Error())
+		}
+		vopts.CertTableOptions = map[string]*validate.CertEntryOption{
+			sev.GCEFwCertGUID: {Kind: validate.CertEntryRequire, Validate: verify.SNPValidateFunc(opts)},
+		}
+		return func(kind string) error {
+			meas, blob := f.input(kind, getter)
+			var extras map[string][]byte
+			if blob != nil {
+				extras = map[string][]byte{sev.GCEFwCertGUID: blob}
+			}
+			return validate.SnpAttestation(attest.SnpAttestation(meas, extras), vopts)
+		}, snapVerifyOptions(opts)
 	}
-	vopts.CertTableOptions = map[string]*validate.CertEntryOption{
-		sev.GCEFwCertGUID: {Kind: validate.CertEntryRequire, Validate: verify.SNPValidateFunc(opts)},
+}
+
+type svCfg struct {
+	bucket    bool // nothing in the certificate table: SevValidate fetches from the bucket
+	fixed     bool // SevValidateOptions.Endorsement set (firmware A's)
+	base      bool // a base policy is configured
+	overwrite bool
+	forceGCS  bool
+}
+
+func basePolicy() *cpb.Policy { return &cpb.Policy{MinimumVersion: "0.0", MinimumGuestSvn: 0} }
+
+func snapSevValidateOptions(o *gcetcbendorsement.SevValidateOptions) func() string {
+	return func() string {
+		base := "nil"
+		if o.BasePolicy != nil {
+			b, _ := proto.MarshalOptions{Deterministic: true}.Marshal(o.BasePolicy)
+			base = hex.EncodeToString(b)
+		}
+		return fmt.Sprintf("endorsement=%p base=%s overwrite=%v vmsas=%d now=%v getter=%p roots=%p forcegcs=%v",
+			o.Endorsement, base, o.Overwrite, o.ExpectedLaunchVmsas, o.Now, o.Getter, o.RootsOfTrust, o.TestonlyForceGCS)
 	}
-	return func(meas []byte) error {
-		return validate.SnpAttestation(attest.SnpAttestation(meas, map[string][]byte{sev.GCEFwCertGUID: f.blob}), vopts)
-	}, opts
+}
+
+func newSevValidateOptions(f *fixture, vmsas uint32, c svCfg) *gcetcbendorsement.SevValidateOptions {
+	o := &gcetcbendorsement.SevValidateOptions{RootsOfTrust: f.pool, Now: t0, Getter: f.getter, ExpectedLaunchVmsas: vmsas, Overwrite: c.overwrite, TestonlyForceGCS: c.forceGCS}
+	if c.fixed {
+		o.Endorsement = f.eA
+	}
+	if c.base {
+		o.BasePolicy = basePolicy()
+	}
+	return o
+}
+
+// mkSevValidate: one gcetcbendorsement.SevValidateOptions value shared by all calls of SevValidate.
+func mkSevValidate(c svCfg) func(f *fixture, v *variant) (func(string) error, func() string) {
+	return func(f *fixture, v *variant) (func(string) error, func() string) {
+		opts := newSevValidateOptions(f, v.vmsas, c)
+		ctx := context.Background()
+		return func(kind string) error {
+			meas, blob := f.input(kind, c.bucket)
+			var extras map[string][]byte
+			if blob != nil {
+				extras = map[string][]byte{sev.GCEFwCertGUID: blob}
+			}
+			return gcetcbendorsement.SevValidate(ctx, attest.SnpAttestation(meas, extras), opts)
+		}, snapSevValidateOptions(opts)
+	}
+}
+
+func guard(call func(string) error, kind string) (err error) {
+	defer func() {
+		if r := recover(); r != nil {
+			err = fmt.Errorf("PANIC: %v", r)
+		}
+	}()
+	return call(kind)
 }
 
 // isolated is the sequential oracle: the result of the call alone on a fresh validator.
-func isolated(f *fixture, v variant, meas []byte) error {
-	call, _ := v.make(f, v.vmsas)
-	return call(meas)
+func isolated(f *fixture, v *variant, kind string) error {
+	call, _ := v.make(f, v)
+	return guard(call, kind)
+}
+
+// computePristine records every (variant, kind)'s verdict alone on a fresh validator before anything
+// is shared, the kinds that must be rejected first. A verdict that contradicts what the harness
+// expects of the repository's semantics is not a re-entrancy matter: it is noted, counted as
+// inconclusive and switches the corresponding absolute expectation off.
+func (f *fixture) computePristine(name string) {
+	f.pristine = map[string]bool{}
+	for _, wantReject := range []bool{true, false} {
+		for _, v := range variants {
+			for _, k := range allKinds {
+				if mustReject(v, k) != wantReject {
+					continue
+				}
+				acc := isolated(f, v, k) == nil
+				f.pristine[v.name+"|"+k] = acc
+				if acc == wantReject {
+					ev.Class(name, "inconclusive/isolated-verdict-not-as-expected")
+					ev.Note("%s: variant %s kind %s alone on a fresh validator is %s, the harness expected the opposite; absolute expectation disabled for it", name, v.name, k, accStr(acc))
+				}
+			}
+		}
+	}
+}
+
+func accStr(acc bool) string {
+	if acc {
+		return "accept"
+	}
+	return "reject"
 }
 
 func okStr(err error) string {
@@ -184,118 +442,281 @@ func schedules(k int) [][]int {
 }
 
 type callState struct {
-	rel  chan struct{}
-	done chan error
-	err  error
-	fin  bool
+	rel      chan struct{}
+	released bool
+	done     chan error
+	err      error
+	fin      bool
+}
+
+// schedInfo says what actually happened while a schedule was driven.
+type schedInfo struct {
+	// overlap: a call of another kind was started while a call was really parked inside chain
+	// verification (and not yet released).
+	overlap bool
+	// parked: number of calls that really reached the park point.
+	parked int
+	// serialised: a call neither reached the park point nor returned while another call was parked
+	// (an implementation that serialises its calls); the parked calls were released and the
+	// schedule continued. Legal; such a case is counted but says nothing about interleavings.
+	serialised bool
+	// inconclusive: the driver gave up on the case (nothing is concluded from it).
+	inconclusive string
+}
+
+const longWait = 90 * time.Second
+
+func (f *fixture) grace(v *variant) time.Duration {
+	return 3 * time.Second
+}
+
+// drain lets every started call run to completion: the gate stops parking, parked calls are
+// released. Returns false if some call does not return.
+func (f *fixture) drain(st []*callState) bool {
+	f.gate.set(false)
+	defer f.gate.set(true)
+	for _, s := range st {
+		if s != nil && s.rel != nil && !s.released {
+			close(s.rel)
+			s.released = true
+		}
+	}
+	deadline := time.After(longWait)
+	for _, s := range st {
+		for s != nil && !s.fin {
+			select {
+			case err := <-s.done:
+				s.err, s.fin = err, true
+			case rel := <-f.gate.parked:
+				close(rel)
+			case <-deadline:
+				return false
+			}
+		}
+	}
+	return true
 }
 
 // runSchedule executes the calls under the schedule and returns each call's result.
-func runSchedule(f *fixture, v variant, classes []string, sched []int) ([]error, *verify.Options, string) {
-	call, shared := v.make(f, v.vmsas)
-	f.gate.mu.Lock()
-	f.gate.enabled = true
-	f.gate.mu.Unlock()
-	defer func() {
-		f.gate.mu.Lock()
-		f.gate.enabled = false
-		f.gate.mu.Unlock()
-	}()
-	st := make([]*callState, len(classes))
+func runSchedule(f *fixture, v *variant, kinds []string, sched []int) (res []error, after string, info schedInfo) {
+	call, snap := v.make(f, v)
+	// nothing may be left over from an abandoned case
+	for stale := true; stale; {
+		select {
+		case rel := <-f.gate.parked:
+			close(rel)
+		default:
+			stale = false
+		}
+	}
+	f.gate.set(true)
+	defer f.gate.set(false)
+	st := make([]*callState, len(kinds))
+	abandon := func(why string) ([]error, string, schedInfo) {
+		info.inconclusive = why
+		f.gate.set(false)
+		for _, s := range st {
+			if s != nil && s.rel != nil && !s.released {
+				close(s.rel)
+				s.released = true
+			}
+		}
+		return nil, "", info
+	}
 	for _, evn := range sched {
 		i := evn / 2
 		if evn%2 == 0 {
 			s := &callState{done: make(chan error, 1)}
-			st[i] = s
-			meas := measOf(classes[i])
-			go func() {
-				defer func() {
-					if r := recover(); r != nil {
-						s.done <- fmt.Errorf("PANIC: %v", r)
+			othersParked, differentParked := false, false
+			for j, o := range st {
+				if o != nil && o.rel != nil && !o.released && !o.fin {
+					othersParked = true
+					if kinds[j] != kinds[i] {
+						differentParked = true
 					}
-				}()
-				s.done <- call(meas)
-			}()
+				}
+			}
+			st[i] = s
+			kind := kinds[i]
+			go func() { s.done <- guard(call, kind) }()
+			wait := longWait
+			if othersParked {
+				wait = f.grace(v)
+			}
 			select {
 			case rel := <-f.gate.parked:
 				s.rel = rel
+				info.parked++
+				info.overlap = info.overlap || differentParked
 			case err := <-s.done:
 				s.err, s.fin = err, true
-			case <-time.After(20 * time.Second):
-				return nil, shared, "call did not reach the gate or return within 20s (harness wedge)"
+				info.overlap = info.overlap || differentParked
+			case <-time.After(wait):
+				if !othersParked {
+					return abandon("a call neither reached chain verification nor returned within " + longWait.String())
+				}
+				// The call waits for a parked one: the implementation serialises. Let everything
+				// started so far finish, then go on with the schedule.
+				info.serialised = true
+				f.serialised[v.name]++
+				if !f.drain(st) {
+					return abandon("calls did not return after all parked calls were released")
+				}
 			}
 		} else {
 			s := st[i]
-			if s.fin {
+			if s.fin || s.released {
 				continue
 			}
 			close(s.rel)
-			select {
-			case err := <-s.done:
-				s.err, s.fin = err, true
-			case rel := <-f.gate.parked:
-				// the call reached chain verification a second time; let it through
-				close(rel)
-				s.err, s.fin = <-s.done, true
-			case <-time.After(20 * time.Second):
-				return nil, shared, "released call did not return within 20s (harness wedge)"
+			s.released = true
+			for !s.fin {
+				select {
+				case err := <-s.done:
+					s.err, s.fin = err, true
+				case rel := <-f.gate.parked:
+					// the call reached chain verification another time; let it through
+					close(rel)
+				case <-time.After(longWait):
+					return abandon("a released call did not return within " + longWait.String())
+				}
 			}
 		}
 	}
-	res := make([]error, len(classes))
+	// calls released by a drain but not yet collected
+	for _, s := range st {
+		if s != nil && !s.fin {
+			if !f.drain(st) {
+				return abandon("calls did not return at the end of the schedule")
+			}
+			break
+		}
+	}
+	res = make([]error, len(kinds))
 	for i, s := range st {
 		res[i] = s.err
 	}
-	return res, shared, ""
+	return res, snap(), info
 }
 
-func snapshot(o *verify.Options) string {
-	var snp string
-	if o.SNP != nil {
-		snp = fmt.Sprintf("{meas=%x vmsas=%d}", o.SNP.Measurement, o.SNP.ExpectedLaunchVMSAs)
+// judge compares one call's result with the oracle. Returns (continue examining, stop the run).
+func judge(t ev.TB, f *fixture, v *variant, kind string, got error, history string) (ok bool, stop bool) {
+	var want error
+	if pr, known := f.pristine[v.name+"|"+kind]; f.recheck || !known {
+		want = isolated(f, v, kind)
+	} else if !pr {
+		want = errAlone
 	}
-	return fmt.Sprintf("snp=%s digest=%x now=%v endorsement=%p getter=%v", snp, o.ExpectedUefiSha384, o.Now, o.Endorsement, o.Getter)
+	report := func(key, msg string) (bool, bool) {
+		if ev.Violation(t, key, "%s", msg) {
+			return false, false
+		}
+		return false, true
+	}
+	if got != nil && strings.HasPrefix(got.Error(), "PANIC") && !(want != nil && strings.HasPrefix(want.Error(), "PANIC")) {
+		return report("C09/panic-under-interleaving", fmt.Sprintf("variant %s, %s: a call (%s) panicked: %v; alone on a fresh validator: %v", v.name, history, kind, got, want))
+	}
+	// absolute: what must be rejected is rejected whatever ran before (only where the call alone,
+	// before anything was shared in this process, was rejected too)
+	if got == nil && mustReject(v, kind) && !f.pristine[v.name+"|"+kind] {
+		key := "C09/unendorsed-accepted-under-interleaving"
+		if kind == "forged" {
+			key = "C09/forged-endorsement-accepted-after-reuse"
+		}
+		return report(key, fmt.Sprintf("variant %s, %s: a call of kind %s was ACCEPTED; it must be rejected whatever other validations ran or are in flight (alone on a fresh validator now: %s, %v)", v.name, history, kind, okStr(want), want))
+	}
+	if (got == nil) != (want == nil) {
+		return report("C09/result-differs-from-isolated", fmt.Sprintf("variant %s, %s: a call of kind %s got %s (%v) but %s alone on a fresh validator (%v)", v.name, history, kind, okStr(got), got, okStr(want), want))
+	}
+	if pr, known := f.pristine[v.name+"|"+kind]; known && pr != (got == nil) {
+		return report("C09/result-depends-on-earlier-validations", fmt.Sprintf("variant %s, %s: a call of kind %s got %s, and so does a fresh validator now, but alone before any validator was shared in this process it got %s", v.name, history, kind, okStr(got), accStr(pr)))
+	}
+	return true, false
 }
 
-func checkSchedule(t ev.TB, name string, f *fixture, v variant, classes []string, sched []int) bool {
-	call0, shared0 := v.make(f, v.vmsas)
-	_ = call0
-	before := snapshot(shared0)
-	res, shared, wedge := runSchedule(f, v, classes, sched)
-	if wedge != "" {
-		t.Fatalf("harness: %s", wedge)
-	}
-	overlap := overlaps(sched, classes)
-	for i, c := range classes {
-		want := isolated(f, v, measOf(c))
-		if (res[i] == nil) != (want == nil) {
-			key := "C09/result-differs-from-isolated"
-			if res[i] == nil {
-				key = "C09/unendorsed-accepted-under-interleaving"
-			}
-			if res[i] != nil && strings.HasPrefix(res[i].Error(), "PANIC") {
-				key = "C09/panic-under-interleaving"
-			}
-			if ev.Violation(t, key, "variant %s, calls %v, schedule %v: call %d (%s) got %s (%v) but %s in isolation (%v)", v.name, classes, schedStr(sched), i, c, okStr(res[i]), res[i], okStr(want), want) {
+var errAlone = fmt.Errorf("rejected when made alone before anything was shared in this process")
+
+// concurrent: the schedule starts some call while another is open.
+func concurrent(sched []int) bool {
+	open := 0
+	for _, e := range sched {
+		if e%2 == 0 {
+			if open > 0 {
 				return true
 			}
+			open++
+		} else {
+			open--
+		}
+	}
+	return false
+}
+
+func checkSchedule(t ev.TB, name string, f *fixture, v *variant, kinds []string, sched []int) bool {
+	if f.serialised[v.name] >= 2 && concurrent(sched) {
+		// This implementation has shown twice that it makes a second call wait for the first:
+		// schedules with calls in flight together cannot be realised and say nothing.
+		ev.Class(name, "skipped/implementation-serialises-calls")
+		ev.Note("%s: variant %s serialises its calls; interleaved schedules are skipped for it", name, v.name)
+		return true
+	}
+	_, snap0 := v.make(f, v)
+	before := snap0()
+	res, after, info := runSchedule(f, v, kinds, sched)
+	if info.inconclusive != "" {
+		ev.Class(name, "inconclusive/driver-gave-up")
+		ev.Note("%s: variant %s calls %v schedule %s: %s", name, v.name, kinds, schedStr(sched), info.inconclusive)
+		return true
+	}
+	history := fmt.Sprintf("calls %v, schedule %s", kinds, schedStr(sched))
+	for i, k := range kinds {
+		ok, stop := judge(t, f, v, k, res[i], fmt.Sprintf("%s, call %d", history, i))
+		if stop {
 			return false
+		}
+		if !ok {
+			return true
 		}
 	}
 	// the caller's options are what the caller configured
-	if after := snapshot(shared); after != before {
-		if !ev.Violation(t, "C09/caller-options-mutated", "variant %s: the caller's Options changed across calls: before %s after %s", v.name, before, after) {
+	if after != before {
+		if !ev.Violation(t, "C09/caller-options-mutated", "variant %s, %s: the caller's options changed across calls: before %s after %s", v.name, history, before, after) {
 			return false
 		}
+		return true
 	}
-	ev.Case(name, overlap, v.name+"|"+strings.Join(classes, ",")+"|"+schedStr(sched), fmt.Sprintf("k=%d/%s", len(classes), map[bool]string{true: "overlapping-different", false: "serial-or-same"}[overlap]), func() any {
+	class := "serial-or-same"
+	switch {
+	case info.serialised:
+		class = "serialised-by-implementation"
+	case info.overlap:
+		class = "overlapping-different"
+	case overlaps(sched, kinds):
+		class = "overlap-scheduled-but-nothing-parked"
+	}
+	ev.Case(name, info.overlap && !info.serialised, v.name+"|"+strings.Join(kinds, ",")+"|"+schedStr(sched), fmt.Sprintf("k=%d/%s", len(kinds), class), func() any {
 		out := make([]string, len(res))
 		for i := range res {
 			out[i] = okStr(res[i])
 		}
-		return map[string]any{"variant": v.name, "calls": classes, "schedule": schedStr(sched), "results": out}
+		return map[string]any{"variant": v.name, "calls": kinds, "schedule": schedStr(sched), "results": out, "calls_parked": info.parked}
 	})
+	if info.overlap && !info.serialised {
+		ev.Class(name, "overlap/"+familyOf(v))
+	}
 	return true
+}
+
+func familyOf(v *variant) string {
+	parts := strings.Split(v.name, "/")
+	fam := parts[0] + "/" + parts[1]
+	if strings.Contains(v.name, "snp=nil") {
+		fam += "/snp=nil"
+	}
+	if strings.Contains(v.name, "base-policy") {
+		fam += "/base-policy"
+	}
+	return fam
 }
 
 func schedStr(s []int) string {
@@ -310,14 +731,14 @@ func schedStr(s []int) string {
 	return strings.Join(parts, " ")
 }
 
-// overlaps: some call starts between another call's start and release and they differ in measurement.
-func overlaps(sched []int, classes []string) bool {
+// overlaps: the schedule starts some call between another call's start and release and they differ in kind.
+func overlaps(sched []int, kinds []string) bool {
 	open := map[int]bool{}
 	for _, e := range sched {
 		i := e / 2
 		if e%2 == 0 {
 			for j := range open {
-				if classes[j] != classes[i] {
+				if kinds[j] != kinds[i] {
 					return true
 				}
 			}
@@ -329,7 +750,7 @@ func overlaps(sched []int, classes []string) bool {
 	return false
 }
 
-func classCombos(k int) [][]string {
+func combos(k int, from []string) [][]string {
 	var out [][]string
 	var rec func(cur []string)
 	rec = func(cur []string) {
@@ -337,7 +758,7 @@ func classCombos(k int) [][]string {
 			out = append(out, append([]string(nil), cur...))
 			return
 		}
-		for _, c := range measClasses[:3] {
+		for _, c := range from {
 			rec(append(cur, c))
 		}
 	}
@@ -345,40 +766,87 @@ func classCombos(k int) [][]string {
 	return out
 }
 
+func constant(c []string) bool {
+	for _, x := range c[1:] {
+		if x != c[0] {
+			return false
+		}
+	}
+	return true
+}
+
+const enumeratedRule = "one shared object per variant: a verify.SNPValidateFunc closure {endorsement = each call's blob argument / Options.Endorsement / fetched through Options.Getter because the call has neither; Options.SNP set (VMSA count 0 or 4) or nil}, a reused go-sev-guest validate.Options built as SevValidate builds it {endorsement in each attestation's certificate table / absent, so the closure fetches}, or one gcetcbendorsement.SevValidateOptions passed to concurrent SevValidate calls {endorsement from the certificate table / from the bucket / Options.Endorsement; VMSA count 0 or 4; base policy with and without overwrite}; k=2 and k=3 calls, each of a kind {endorsed, endorsed for another VMSA count, unendorsed, firmware B with B's own endorsement, endorsement with a corrupted signature}; schedule = every interleaving of {start call i until it parks inside chain verification, release call i until it returns} (6 for k=2, 90 for k=3), the park point being the x509 root-constraint callback; a call that does not reach the park point while another is parked is treated as an implementation serialising its calls (parked calls are released, the case is counted as serialised); oracle: each call's accept/reject equals its result alone on a fresh object before anything was shared in this process AND (recomputed once per kind combination in the enumeration, for every case elsewhere) alone on a fresh object after the shared run; a kind that must be rejected (unendorsed; other count under VMSA count 4; firmware B under A's configured endorsement; corrupted signature) is rejected; the caller's options are unchanged; non-trivial = a call of another kind was started while a call was REALLY parked; distinct = (variant, kinds, schedule); quick tier: k=2 complete over all kinds, k=3 over a fixed subset of kind combinations and (round-4 variants) every fifth schedule"
+
 func TestSchedulesExhaustive(t *testing.T) {
 	if os.Getenv("VERIF_RACE") == "1" {
 		t.Skip("schedule enumeration runs in the non-race binary")
 	}
 	const name = "schedules/enumerated"
-	ev.Rule(name, "one validator (closure with blob / with Options.Endorsement / a reused go-sev-guest validate.Options built as SevValidate builds it; VMSA count 0 or 4) shared by k=2 and k=3 calls whose measurements are endorsed / endorsed for another count / unendorsed; schedule = every interleaving of {start call i until it parks inside chain verification, release call i until it returns} (6 for k=2, 90 for k=3), the park point being the x509 root-constraint callback which runs after the call noted its measurement and before it is compared; oracle: each call's accept/reject equals its result alone on a fresh validator, and the caller's Options are unchanged; non-trivial = a call with a different measurement starts while another is parked; distinct = (variant, measurement classes, schedule)")
+	ev.Rule(name, enumeratedRule)
 	f := newFixture()
-	for _, v := range variants {
-		for _, k := range []int{2, 3} {
-			scheds := schedules(k)
-			combos := classCombos(k)
-			if k == 3 && ev.Tier() != "thorough" {
-				// quick: all 90 schedules for the combos that mix accept and reject, others sampled by stride
+	f.computePristine(name)
+	thorough := ev.Tier() == "thorough"
+	for vi, v := range variants {
+		// k=2: everything
+		for _, kinds := range combos(2, []string{"endorsed", "other-count", "unendorsed", "fwB", "forged"}) {
+			for si, s := range schedules(2) {
+				f.recheck = si == 5 // the fresh-object oracle is recomputed once per combination, after the other schedules
+				if !checkSchedule(t, name, f, v, kinds, s) {
+					return
+				}
+			}
+		}
+		scheds := schedules(3)
+		// k=3 over the round-1 kinds
+		if vi < firstNewVariant || thorough {
+			cs := combos(3, oldKinds)
+			if !thorough {
+				// quick: all 90 schedules for the combos that mix kinds, constant ones sampled by stride
 				var sel [][]string
-				for i, c := range combos {
-					if c[0] != c[1] || c[1] != c[2] || i%5 == 0 {
+				for i, c := range cs {
+					if !constant(c) || i%5 == 0 {
 						sel = append(sel, c)
 					}
 				}
-				combos = sel
+				cs = sel
 				if v.vmsas == 0 && strings.HasPrefix(v.name, "go-sev-guest") {
-					combos = combos[:6]
+					cs = cs[:6]
 				}
 			}
-			for _, classes := range combos {
-				for _, s := range scheds {
-					if !checkSchedule(t, name, f, v, classes, s) {
+			for _, kinds := range cs {
+				for si, s := range scheds {
+					f.recheck = si == len(scheds)-1
+					if !checkSchedule(t, name, f, v, kinds, s) {
 						return
 					}
 				}
 			}
 		}
+		// k=3 over {endorsed, firmware B, forged}
+		for ci, kinds := range combos(3, newKinds) {
+			if constant(kinds) {
+				continue
+			}
+			visited := 0
+			for si, s := range scheds {
+				if !thorough {
+					stride := 5
+					if vi < firstNewVariant {
+						stride = 9
+					}
+					if (si+ci)%stride != 0 {
+						continue
+					}
+				}
+				visited++
+				f.recheck = visited%8 == 1
+				if !checkSchedule(t, name, f, v, kinds, s) {
+					return
+				}
+			}
+		}
 	}
-	if ev.Tier() == "thorough" {
+	if thorough {
 		ev.Exhaustive(name)
 	}
 }
@@ -388,16 +856,18 @@ func TestSchedulesSampledK4(t *testing.T) {
 		t.Skip("schedule sampling runs in the non-race binary")
 	}
 	const name = "schedules/sampled-k4"
-	ev.Rule(name, "as above with k=4 calls (2520 interleavings x 256 class combinations x 6 variants), sampled by rapid; same oracle")
+	ev.Rule(name, "as schedules/enumerated with k=4 calls (2520 interleavings x 1296 kind combinations x all variants), sampled by rapid; same oracle")
 	f := newFixture()
+	f.computePristine(name)
 	all := schedules(4)
 	n := ev.Scale(300, 4000)
+	checks(100)
 	rapid.Check(t, func(rt *rapid.T) {
 		for i := 0; i < n/100+1; i++ {
-			v := variants[rapid.IntRange(0, len(variants)-1).Draw(rt, "variant")]
-			classes := rapid.SliceOfN(rapid.SampledFrom(measClasses), 4, 4).Draw(rt, "classes")
+			v := variants[spread(rapid.Uint64().Draw(rt, "variant"), len(variants))]
+			kinds := rapid.SliceOfN(rapid.SampledFrom(allKinds), 4, 4).Draw(rt, "kinds")
 			s := all[rapid.IntRange(0, len(all)-1).Draw(rt, "schedule")]
-			if !checkSchedule(rt, name, f, v, classes, s) {
+			if !checkSchedule(rt, name, f, v, kinds, s) {
 				return
 			}
 		}
@@ -410,24 +880,30 @@ func TestSequentialReuse(t *testing.T) {
 		t.Skip()
 	}
 	const name = "sequential-reuse"
-	ev.Rule(name, "one validator invoked 2-8 times in sequence with drawn measurement classes; oracle: each result equals the isolated result; non-trivial = sequence contains both an accepted and a rejected measurement; distinct = (variant, class sequence)")
+	ev.Rule(name, "one shared object (any variant of schedules/enumerated) used for 2-8 calls in sequence with drawn kinds; oracle as in schedules/enumerated; non-trivial = the sequence contains two different kinds and both an accepted and a rejected call; distinct = (variant, kind sequence)")
 	f := newFixture()
+	f.computePristine(name)
+	checks(ev.Scale(150, 2000))
 	rapid.Check(t, func(rt *rapid.T) {
-		v := variants[rapid.IntRange(0, len(variants)-1).Draw(rt, "variant")]
-		classes := rapid.SliceOfN(rapid.SampledFrom(measClasses), 2, 8).Draw(rt, "classes")
-		call, _ := v.make(f, v.vmsas)
+		v := variants[spread(rapid.Uint64().Draw(rt, "variant"), len(variants))]
+		kinds := rapid.SliceOfN(rapid.SampledFrom(allKinds), 2, 8).Draw(rt, "kinds")
+		call, snap := v.make(f, v)
+		before := snap()
 		sawAcc, sawRej := false, false
-		for i, c := range classes {
-			got := call(measOf(c))
-			want := isolated(f, v, measOf(c))
-			if (got == nil) != (want == nil) {
-				ev.Violation(rt, "C09/result-differs-from-isolated", "variant %s sequence %v: call %d (%s) got %s, isolated %s", v.name, classes, i, c, okStr(got), okStr(want))
+		for i, k := range kinds {
+			got := guard(call, k)
+			ok, stop := judge(rt, f, v, k, got, fmt.Sprintf("sequence %v, call %d", kinds, i))
+			if stop || !ok {
 				return
 			}
 			sawAcc = sawAcc || got == nil
 			sawRej = sawRej || got != nil
 		}
-		ev.Case(name, sawAcc && sawRej, v.name+"|"+strings.Join(classes, ","), v.name, func() any { return map[string]any{"variant": v.name, "sequence": classes} })
+		if after := snap(); after != before {
+			ev.Violation(rt, "C09/caller-options-mutated", "variant %s, sequence %v: the caller's options changed across calls: before %s after %s", v.name, kinds, before, after)
+			return
+		}
+		ev.Case(name, sawAcc && sawRej && !constant(kinds), v.name+"|"+strings.Join(kinds, ","), familyOf(v), func() any { return map[string]any{"variant": v.name, "sequence": kinds} })
 	})
 }
 
@@ -435,41 +911,54 @@ func TestSequentialReuse(t *testing.T) {
 // Any data race is reported by the race detector, which fails the test.
 func TestRaceFreeRunning(t *testing.T) {
 	const name = "race/free-running"
-	ev.Rule(name, "binary built with -race; 8 goroutines share one validator and validate endorsed/unendorsed measurements concurrently without any schedule control; oracle: each result equals the isolated result and the race detector reports nothing (a report fails the test); non-trivial = all; distinct = (variant, goroutine, iteration bucket)")
+	ev.Rule(name, "binary built with -race; 8 goroutines share one object (every variant of schedules/enumerated, including one SevValidateOptions passed to concurrent SevValidate calls) and validate attestations of all kinds concurrently without any schedule control; oracle: each result equals the result alone on a fresh object computed before the goroutines start, what must be rejected is rejected, and the race detector reports nothing (a report fails the test); one case per (variant, goroutine); non-trivial = that goroutine saw another call in flight during one of its calls; distinct = (variant, goroutine)")
 	if os.Getenv("VERIF_RACE") != "1" {
 		ev.Note("race sub-check runs in the separate -race binary")
 		t.Skip("runs in the -race binary")
 	}
 	f := newFixture()
-	iters := ev.Scale(250, 6000)
+	f.computePristine(name)
 	for _, v := range variants {
-		call, _ := v.make(f, v.vmsas)
-		wantAcc := isolated(f, v, measEndorsed4) == nil
+		iters := ev.Scale(120, 3000)
+		if strings.HasPrefix(v.name, "SevValidate") || strings.HasPrefix(v.name, "go-sev-guest") {
+			iters = ev.Scale(40, 1000)
+		}
+		call, _ := v.make(f, v)
 		var wg sync.WaitGroup
 		var mu sync.Mutex
-		var firstBad string
+		var firstBad, firstKey string
+		var inflight int32
+		sawOther := make([]bool, 8)
 		for g := 0; g < 8; g++ {
 			wg.Add(1)
 			go func(g int) {
 				defer wg.Done()
 				for i := 0; i < iters; i++ {
-					good := (g+i)%2 == 0
-					meas := measBad
-					if good {
-						meas = measEndorsed4
+					kind := allKinds[(g+i)%len(allKinds)]
+					if atomic.AddInt32(&inflight, 1) > 1 {
+						sawOther[g] = true
 					}
-					err := call(meas)
-					bad := ""
-					if good && wantAcc && err != nil {
-						bad = fmt.Sprintf("endorsed measurement rejected under concurrency: %v", err)
+					err := guard(call, kind)
+					if atomic.AddInt32(&inflight, -1) > 0 {
+						sawOther[g] = true
 					}
-					if !good && err == nil {
-						bad = "unendorsed measurement accepted under concurrency"
+					want := f.pristine[v.name+"|"+kind]
+					bad, key := "", "C09/result-differs-from-isolated"
+					switch {
+					case err != nil && strings.HasPrefix(err.Error(), "PANIC"):
+						bad, key = fmt.Sprintf("kind %s panicked under concurrency: %v", kind, err), "C09/panic-under-interleaving"
+					case err == nil && !want && mustReject(v, kind):
+						bad, key = fmt.Sprintf("kind %s accepted under concurrency", kind), "C09/unendorsed-accepted-under-interleaving"
+						if kind == "forged" {
+							key = "C09/forged-endorsement-accepted-after-reuse"
+						}
+					case (err == nil) != want:
+						bad = fmt.Sprintf("kind %s got %s under concurrency (%v), alone on a fresh object %v", kind, okStr(err), err, accStr(want))
 					}
 					if bad != "" {
 						mu.Lock()
 						if firstBad == "" {
-							firstBad = bad
+							firstBad, firstKey = bad, key
 						}
 						mu.Unlock()
 						return
@@ -479,12 +968,14 @@ func TestRaceFreeRunning(t *testing.T) {
 		}
 		wg.Wait()
 		if firstBad != "" {
-			if !ev.Violation(t, "C09/unendorsed-accepted-under-interleaving", "variant %s free-running: %s", v.name, firstBad) {
+			if !ev.Violation(t, firstKey, "variant %s free-running: %s", v.name, firstBad) {
 				return
 			}
 		}
 		for g := 0; g < 8; g++ {
-			ev.Case(name, true, v.name+strconv.Itoa(g), v.name, func() any { return map[string]any{"variant": v.name, "goroutines": 8, "iterations_each": iters} })
+			ev.Case(name, sawOther[g], v.name+"|"+strconv.Itoa(g), familyOf(v), func() any {
+				return map[string]any{"variant": v.name, "goroutines": 8, "iterations_each": iters}
+			})
 		}
 	}
 }
